@@ -101,6 +101,406 @@ Definition fmt_d (n:num) : res str :=
   | NNaN => Crash (s_ "ValueError")
   end.
 
+(* as a float: float(x) for ints and bools, identity on floats *)
+Definition as_float (n:num) : res num :=
+  match n with
+  | NInt z => float_of_Z z
+  | NBool b => Ok (norm_flt (b2z b) 0)
+  | _ => Ok n
+  end.
+
+(* ---------------------------------------------------------------- strings *)
+Fixpoint lstrip (s:str) : str :=
+  match s with c :: r => if isspace c then lstrip r else s | [] => [] end.
+Definition strip (s:str) : str := rev (lstrip (rev (lstrip s))).   (* str.strip() *)
+
+Fixpoint join_sp (l:list str) : str :=                             (* " ".join(l) *)
+  match l with
+  | [] => []
+  | a :: r => match r with [] => a | _ => a ++ " " :: join_sp r end
+  end.
+
+(* str.split(): maximal runs of non-whitespace *)
+Fixpoint split_go (s:str) (cur:str) : list str :=
+  match s with
+  | [] => match cur with [] => [] | _ => [rev cur] end
+  | c :: r =>
+      if isspace c then match cur with [] => split_go r [] | _ => rev cur :: split_go r [] end
+      else split_go r (c :: cur)
+  end.
+Definition split_ws (s:str) : list str := split_go s [].
+
+(* int(s) for a str s, base 10.  CPython: code points >= 127 that are whitespace become blanks,
+   then C isspace (9-13, 32) is skipped on both sides: \x1c-\x1f are NOT skipped although
+   str.isspace holds for them.  Optional sign, digits with single underscores between digits,
+   at most 4300 digits. *)
+Definition int_space (c:ascii) : bool :=
+  let n := nat_of c in
+  (((9 <=? n) && (n <=? 13)) || (n =? 32) || (n =? 133) || (n =? 160))%nat.
+Fixpoint skip_int_space (s:str) : str :=
+  match s with c :: r => if int_space c then skip_int_space r else s | [] => [] end.
+Fixpoint int_digits (s:str) (acc cnt:Z) (after_us:bool) : option (Z * Z * str) :=
+  match s with
+  | c :: r =>
+      match digit_of c with
+      | Some d => int_digits r (acc * 10 + d)%Z (cnt + 1)%Z false
+      | None =>
+          if Ascii.eqb c "_" then (if after_us then None else int_digits r acc cnt true)
+          else if after_us then None else Some (acc, cnt, s)
+      end
+  | [] => if after_us then None else Some (acc, cnt, [])
+  end.
+Definition py_int_of_str (s:str) : option Z :=
+  let s1 := skip_int_space s in
+  let '(neg, s2) :=
+    match s1 with
+    | c :: r => if Ascii.eqb c "-" then (true, r) else if Ascii.eqb c "+" then (false, r) else (false, s1)
+    | [] => (false, [])
+    end in
+  match s2 with
+  | c :: _ =>
+      match digit_of c with
+      | None => None
+      | Some _ =>
+          match int_digits s2 0 0 false with
+          | Some (v, cnt, rest) =>
+              match skip_int_space rest with
+              | [] => if (4300 <? cnt)%Z then None else Some (if neg then (- v)%Z else v)
+              | _ => None
+              end
+          | None => None
+          end
+      end
+  | [] => None
+  end.
+
+(* ---------------------------------------------------------------- values *)
+(* what eval(value_string, math.__dict__, {}) did *)
+Inductive evr := ENum (n:num) | ENone | EAuto | EOther | ERaise.
+(* result of number_from_value_string *)
+Inductive nv := VNone | VAuto | VNum (n:num) | VOther.
+(* extracted Python values *)
+Inductive pyv := PNone | PAuto | PNum (n:num) | PList (l:list pyv).
+(* result of int_from_words / float_from_words *)
+Inductive sv := SVNone | SVAuto | SVNum (n:num).
+(* result of str_from_words *)
+Inductive sfw := SNone | SAuto | SStr (s:str).
+
+(* converter instances after __init__ *)
+Record nconv := mknconv { vmin : option num; vmax : option num; allow_none : bool }.
+Record lconv := mklconv { smin : option Z; smax : option Z; lvmin : option num; lvmax : option num;
+                          none_el : bool; auto_el : bool }.
+Inductive cty := CBool | CInt (c:nconv) | CFloat (c:nconv) | CInts (c:lconv) | CFloats (c:lconv).
+
+(* number_converters_base.__init__ / numbers_converters_base.__init__ (the asserts) *)
+Definition number_init (lo hi:option num) (an:bool) : res nconv :=
+  match lo, hi with
+  | Some a, Some b => if num_le a b then Ok (mknconv lo hi an) else Crash (s_ "AssertionError")
+  | _, _ => Ok (mknconv lo hi an)
+  end.
+Definition pos_or_none (o:option Z) : bool := match o with Some z => (0 <? z)%Z | None => true end.
+Definition numbers_init (size smin' smax':option Z) (lo hi:option num) (ne ae:bool) : res lconv :=
+  let sizes : res (option Z * option Z) :=
+    match size with
+    | Some n =>
+        match smin', smax' with
+        | None, None => if (0 <? n)%Z then Ok (Some n, Some n) else Crash (s_ "AssertionError")
+        | _, _ => Crash (s_ "AssertionError")
+        end
+    | None =>
+        if negb (pos_or_none smin') then Crash (s_ "AssertionError")
+        else if negb (pos_or_none smax') then Crash (s_ "AssertionError")
+        else match smin', smax' with
+             | Some a, Some b => if (a <=? b)%Z then Ok (smin', smax') else Crash (s_ "AssertionError")
+             | _, _ => Ok (smin', smax')
+             end
+    end in
+  do ab <- sizes;
+  match lo, hi with
+  | Some a, Some b =>
+      if num_le a b then Ok (mklconv (fst ab) (snd ab) lo hi ne ae) else Crash (s_ "AssertionError")
+  | _, _ => Ok (mklconv (fst ab) (snd ab) lo hi ne ae)
+  end.
+
+(* words[0].where_str() in an error message: IndexError on an empty word list *)
+Definition err_at {A} (ws:list word) (kind:string) (tok:str) : res A :=
+  match ws with [] => Crash (s_ "IndexError") | w :: _ => UErr (s_ kind) tok (wline w) end.
+(* the local where_str() helpers: words=None gives "" *)
+Definition err_at_opt {A} (ows:option (list word)) (kind:string) (tok:str) : res A :=
+  match ows with None => UErr (s_ kind) tok 0 | Some ws => err_at ws kind tok end.
+
+Fixpoint map_res {A B} (f:A -> res B) (l:list A) : res (list B) :=
+  match l with
+  | [] => Ok []
+  | a :: r => do b <- f a; do bs <- map_res f r; Ok (b :: bs)
+  end.
+
+Definition none_s : str := s_ "none".
+Definition auto_s : str := s_ "auto".
+Definition falses : list str := [s_ "false"; s_ "no"; s_ "off"; s_ "0"].
+Definition trues : list str := [s_ "true"; s_ "yes"; s_ "on"; s_ "1"].
+
+(* tokens.is_plain_none / is_plain_auto *)
+Definition is_plain (what:str) (ws:list word) : bool :=
+  match ws with
+  | [w] => negb (isq w) && eqs (lowers (wv w)) what
+  | _ => false
+  end.
+Definition str_from_words (ws:list word) : sfw :=
+  if is_plain none_s ws then SNone
+  else if is_plain auto_s ws then SAuto
+  else SStr (join_sp (map wv ws)).
+
+Definition bool_from_words (ws:list word) : res pyv :=
+  match str_from_words ws with
+  | SNone => Ok PNone
+  | SAuto => Ok PAuto
+  | SStr s =>
+      let l := lowers s in
+      if mems l falses then Ok (PNum (NBool false))
+      else if mems l trues then Ok (PNum (NBool true))
+      else match ws with
+           | [] => Crash (s_ "AssertionError")       (* assert len(words) > 0 *)
+           | w :: _ => UErr (s_ "NotBool") s (wline w)
+           end
+  end.
+
+(* ---- bracket stripping loop of numbers_from_words *)
+Definition starts (o:ascii) (s:str) : bool := match s with c :: _ => Ascii.eqb c o | [] => false end.
+Definition ends (c:ascii) (s:str) : bool := starts c (rev s).
+Definition mid (s:str) : str := removelast (tl s).                      (* s[1:-1] *)
+(* while s.startswith(o) and s.endswith(c): s = s[1:-1].strip() ; flag = a change happened *)
+Fixpoint strip_pair (o c:ascii) (fuel:nat) (s:str) : str * bool :=
+  match fuel with
+  | O => (s, false)
+  | S f => if starts o s && ends c s then (fst (strip_pair o c f (strip (mid s))), true) else (s, false)
+  end.
+Fixpoint unbracket (fuel:nat) (s:str) : str :=
+  match fuel with
+  | O => s
+  | S f =>
+      let '(s1, b1) := strip_pair "(" ")" (length s) s in
+      let '(s2, b2) := strip_pair "[" "]" (length s1) s1 in
+      if b1 || b2 then unbracket f s2 else s2
+  end.
+Definition sepfix (c:ascii) : ascii := if Ascii.eqb c "," || Ascii.eqb c ";" then " " else c.
+(* the value strings of a list text *)
+Definition list_tokens (s:str) : list str := split_ws (map sepfix (unbracket (S (length s)) s)).
+
+(* ---- truthiness for bool as_words *)
+Definition num_is_zero (n:num) : bool :=
+  match n with
+  | NInt z => (z =? 0)%Z | NFlt m _ => (m =? 0)%Z | NNegZero => true
+  | NInf _ => false | NNaN => false | NBool b => negb b
+  end.
+Definition truthy (v:pyv) : bool :=
+  match v with
+  | PNone => false | PAuto => true | PNum n => negb (num_is_zero n)
+  | PList l => match l with [] => false | _ => true end
+  end.
+
+(* whether _value_as_str(x) returns (its text is irrelevant inside an error message) *)
+Definition value_fmt_ok (isint:bool) (n:num) : res unit :=
+  if isint then (do _ <- fmt_d n; Ok tt) else (do _ <- as_float n; Ok tt).
+
 Section WithOracles.
-Variable pyeval : str -> option evr_placeholder.
+  Variable pyeval : str -> option evr.
+  Variable fmt10g : num -> option str.
+
+  (* "%.10g" % x ; _value_as_str of both converter families *)
+  Definition fmt_g (n:num) : res str :=
+    do f <- as_float n;
+    match fmt10g f with Some s => Ok s | None => Crash (s_ "OracleMissing") end.
+  Definition value_as_str (isint:bool) (n:num) : res str := if isint then fmt_d n else fmt_g n.
+
+  Definition number_from_value_string (vs:sfw) (ws:list word) : res nv :=
+    match vs with
+    | SNone => Ok VNone
+    | SAuto => Ok VAuto
+    | SStr s =>
+        let t := strip (lowers s) in
+        if mems t [s_ "true"; s_ "false"] then err_at ws "NotNumeric" s
+        else if eqs t none_s then Ok VNone
+        else if eqs t auto_s then Ok VAuto
+        else match py_int_of_str s with
+             | Some z => Ok (VNum (NInt z))
+             | None =>
+                 match pyeval s with
+                 | None => Crash (s_ "OracleMissing")
+                 | Some (ENum n) => Ok (VNum n)
+                 | Some ENone => Ok VNone
+                 | Some EAuto => Ok VAuto
+                 | Some EOther => Ok VOther
+                 | Some ERaise => err_at ws "NotNumeric" s
+                 end
+             end
+    end.
+
+  Definition number_from_words (ws:list word) : res nv :=
+    number_from_value_string (str_from_words ws) ws.
+
+  (* the part of numbers_from_words after str_from_words *)
+  Definition numbers_of_text (ws:list word) (s:str) : res (list nv) :=
+    map_res (fun v => number_from_value_string (SStr v) ws) (list_tokens s).
+
+  Definition int_from_number (x:nv) (ws:list word) : res num :=
+    match x with
+    | VNum (NInt z) => Ok (NInt z)                    (* isinstance(number, int) *)
+    | VNum (NBool b) => Ok (NBool b)                  (* bool is an int: returned as it is *)
+    | VNum (NFlt m e) =>
+        match flt_integral m e with
+        | Some z => Ok (NInt z)
+        | None => err_at ws "NotInteger" []
+        end
+    | VNum NNegZero => Ok (NInt 0)
+    | VNum (NInf _) => Crash (s_ "OverflowError")     (* round(inf) *)
+    | VNum NNaN => Crash (s_ "ValueError")            (* round(nan) *)
+    | _ => err_at ws "NotInteger" []
+    end.
+
+  Definition float_from_number (x:nv) (ws:list word) : res num :=
+    match x with
+    | VNum (NInt z) => float_of_Z z
+    | VNum (NBool b) => Ok (norm_flt (b2z b) 0)
+    | VNum n => Ok n
+    | _ => err_at ws "NotFloat" []
+    end.
+
+  Definition x_from_number (isint:bool) := if isint then int_from_number else float_from_number.
+
+  (* int_from_words / float_from_words *)
+  Definition x_from_words (isint:bool) (ws:list word) : res sv :=
+    do r <- number_from_words ws;
+    match r with
+    | VNone => Ok SVNone
+    | VAuto => Ok SVAuto
+    | _ => do n <- x_from_number isint r ws; Ok (SVNum n)
+    end.
+
+  (* _check_value_base._check_value ; the error message formats the value and the bound *)
+  Definition bound_err (isint:bool) (kind:string) (v b:num) (ows:option (list word)) : res unit :=
+    do _ <- value_fmt_ok isint v; do _ <- value_fmt_ok isint b; err_at_opt ows kind [].
+  Definition check_value (isint:bool) (lo hi:option num) (v:num) (ows:option (list word)) : res unit :=
+    do _ <- match lo with
+            | Some b => if num_lt v b then bound_err isint "BelowMin" v b ows else Ok tt
+            | None => Ok tt
+            end;
+    match hi with
+    | Some b => if num_lt b v then bound_err isint "AboveMax" v b ows else Ok tt
+    | None => Ok tt
+    end.
+
+  (* numbers_converters_base._check_size *)
+  Definition check_size (lo hi:option Z) (size:Z) (ows:option (list word)) : res unit :=
+    do _ <- match hi with
+            | Some m => if (m <? size)%Z then err_at_opt ows "TooMany" [] else Ok tt
+            | None => Ok tt
+            end;
+    match lo with
+    | Some m => if (size <? m)%Z then err_at_opt ows "NotEnough" [] else Ok tt
+    | None => Ok tt
+    end.
+
+  (* number_converters_base.from_words *)
+  Definition number_conv_from_words (isint:bool) (c:nconv) (ws:list word) : res pyv :=
+    do v <- x_from_words isint ws;
+    match v with
+    | SVNone => if allow_none c then Ok PNone else UErr (s_ "CannotBeNone") [] 0
+    | SVAuto => Ok PAuto
+    | SVNum n => do _ <- check_value isint (vmin c) (vmax c) n (Some ws); Ok (PNum n)
+    end.
+
+  (* numbers_from_words *)
+  Inductive lres := LNone | LAuto | LList (l:list nv).
+  Definition numbers_from_words (ws:list word) : res lres :=
+    match str_from_words ws with
+    | SNone => Ok LNone
+    | SAuto => Ok LAuto
+    | SStr s => do l <- numbers_of_text ws s; Ok (LList l)
+    end.
+
+  (* one iteration of the element loop of numbers_converters_base.from_words *)
+  Definition conv_elem (isint:bool) (c:lconv) (ws:list word) (x:nv) : res pyv :=
+    match x with
+    | VNone => if none_el c then Ok PNone else err_at ws "ElementNone" []
+    | VAuto => if auto_el c then Ok PAuto else err_at ws "ElementAuto" []
+    | _ => do n <- x_from_number isint x ws;
+           do _ <- check_value isint (lvmin c) (lvmax c) n (Some ws);
+           Ok (PNum n)
+    end.
+
+  Definition numbers_conv_from_words (isint:bool) (c:lconv) (ws:list word) : res pyv :=
+    do r <- numbers_from_words ws;
+    match r with
+    | LNone => Ok PNone
+    | LAuto => Ok PAuto
+    | LList l =>
+        do _ <- check_size (smin c) (smax c) (Z.of_nat (length l)) (Some ws);
+        do vs <- map_res (conv_elem isint c ws) l;
+        Ok (PList vs)
+    end.
+
+  Definition from_words (t:cty) (ws:list word) : res pyv :=
+    match t with
+    | CBool => bool_from_words ws
+    | CInt c => number_conv_from_words true c ws
+    | CFloat c => number_conv_from_words false c ws
+    | CInts c => numbers_conv_from_words true c ws
+    | CFloats c => numbers_conv_from_words false c ws
+    end.
+
+  (* ------------------------------------------------------------ as_words *)
+  Definition none_w : list word := [uw (s_ "None")].
+  Definition auto_w : list word := [uw (s_ "Auto")].
+
+  Definition bool_as_words (v:pyv) : res (list word) :=
+    match v with
+    | PNone => Ok none_w
+    | PAuto => Ok auto_w
+    | _ => Ok [uw (if truthy v then s_ "True" else s_ "False")]
+    end.
+
+  (* number_converters_base.as_words: no bounds check here (as the code) *)
+  Definition number_conv_as_words (isint:bool) (c:nconv) (v:pyv) : res (list word) :=
+    match v with
+    | PNone => if allow_none c then Ok none_w else UErr (s_ "CannotBeNone") [] 0
+    | PAuto => Ok auto_w
+    | PNum n => do s <- value_as_str isint n; Ok [uw s]
+    | PList _ => Crash (s_ "TypeError")               (* "%d" % [..] *)
+    end.
+
+  (* _check_value on an arbitrary element: None < bound etc. is a TypeError *)
+  Definition check_value_py (isint:bool) (lo hi:option num) (v:pyv) : res unit :=
+    match v with
+    | PNum n => check_value isint lo hi n None
+    | _ => match lo, hi with None, None => Ok tt | _, _ => Crash (s_ "TypeError") end
+    end.
+
+  Definition elem_as_word (isint:bool) (c:lconv) (v:pyv) : res word :=
+    do _ <- check_value_py isint (lvmin c) (lvmax c) v;
+    match v with
+    | PNone => if none_el c then Ok (uw (s_ "None")) else UErr (s_ "ElementNone") [] 0
+    | PAuto => if auto_el c then Ok (uw (s_ "Auto")) else UErr (s_ "ElementAuto") [] 0
+    | PNum n => do s <- value_as_str isint n; Ok (uw s)
+    | PList _ => Crash (s_ "TypeError")
+    end.
+
+  Definition numbers_conv_as_words (isint:bool) (c:lconv) (v:pyv) : res (list word) :=
+    match v with
+    | PNone => Ok none_w
+    | PAuto => Ok auto_w
+    | PNum _ => Crash (s_ "TypeError")                (* len(number) *)
+    | PList l =>
+        do _ <- check_size (smin c) (smax c) (Z.of_nat (length l)) None;
+        map_res (elem_as_word isint c) l
+    end.
+
+  Definition as_words (t:cty) (v:pyv) : res (list word) :=
+    match t with
+    | CBool => bool_as_words v
+    | CInt c => number_conv_as_words true c v
+    | CFloat c => number_conv_as_words false c v
+    | CInts c => numbers_conv_as_words true c v
+    | CFloats c => numbers_conv_as_words false c v
+    end.
 End WithOracles.
